@@ -80,4 +80,41 @@ pub fn hcalc_schur_small(s: &mut Src) -> R {
     Ok(())
 }
 
-crate::harness_table!(HCALC: hcalc_small, hcalc_schur_small);
+
+// C12 (triangular solver) — witness search / replay for the Verus unit `triang` on the real crate: 4x4 triangular matrices
+// over F_5 with unit diagonal, optionally carrying explicitly stored zeros in the opposite triangle (built as M - strict(M)),
+// right-hand sides with 2 columns; both orientations; solve_triangular, solve_triangular_left, solve_triangular_vec.
+pub fn hcalc_triang_small(s: &mut Src) -> R {
+    use yui::FF;
+    use yui_matrix::sparse::triang::{solve_triangular, solve_triangular_left, solve_triangular_vec, TriangularType};
+    use yui_matrix::sparse::SpVec;
+    type F = FF<5>;
+    const N: usize = 4;
+    let mut e = [0i64; N * N]; let mut y = [0i64; 2 * N];
+    for k in 0..N * N { e[k] = s.small(0, 4); }
+    for k in 0..2 * N { y[k] = s.small(0, 4); }
+    let (upper, stored_zeros) = (s.bool(), s.bool());
+    for i in 0..N { pre!(e[i * N + i] != 0); }
+    reach!();
+    let f = |x: i64| F::new(x as i32);
+    let full = SpMat::from_dense_data((N, N), e.iter().map(|&x| f(x)).collect::<Vec<_>>());
+    let keep = |i: usize, j: usize| if upper { i <= j } else { i >= j };
+    let tri_entries = |k: bool| (0..N * N).filter(move |&p| keep(p / N, p % N) == k).map(|p| (p / N, p % N, f(e[p]))).collect::<Vec<_>>();
+    // with stored zeros: the opposite strict triangle is subtracted, the cancelled positions stay in the pattern
+    let a = if stored_zeros { &full - &SpMat::from_entries((N, N), tri_entries(false)) } else { SpMat::from_entries((N, N), tri_entries(true)) };
+    let t = if upper { TriangularType::Upper } else { TriangularType::Lower };
+    ob!(a.is_triang(t), "harness::a-is-triangular");
+    let ym = SpMat::from_dense_data((N, 2), y.iter().map(|&x| f(x)).collect::<Vec<_>>());
+    let x = solve_triangular(t, &a, &ym);
+    ob!((&a * &x).into_dense() == ym.clone().into_dense(), "solve_triangular::A.X==Y");
+    let yl = SpMat::from_dense_data((2, N), y.iter().map(|&x| f(x)).collect::<Vec<_>>());
+    let xl = solve_triangular_left(t, &a, &yl);
+    ob!((&xl * &a).into_dense() == yl.into_dense(), "solve_triangular_left::X.A==Y");
+    let yv = SpVec::from(y[..N].iter().map(|&x| f(x)).collect::<Vec<_>>());
+    let xv = solve_triangular_vec(t, &a, &yv);
+    ob!((&a * &xv).to_dense() == yv.to_dense(), "solve_triangular_vec::A.x==y");
+    ob!(xv.iter().all(|(_, v)| *v != F::new(0)), "solve_triangular_vec::no-zero-stored");
+    Ok(())
+}
+
+crate::harness_table!(HCALC: hcalc_small, hcalc_schur_small, hcalc_triang_small);
